@@ -187,6 +187,21 @@ func doAction(ch choose.Chooser, r *walkRes, act int) string {
 		}
 		w.setFinalized(w.l1.Tip() - uint64(ch.Int(0, 1, "finLag")))
 		return "L1"
+	case 13: // the Agglayer rejects the undecided certificate and then its replacement as well (status and epoch ticks in between)
+		k := 0
+		for i := 0; i < 2; i++ {
+			m.mu.Lock()
+			if u := m.undecided(); u != nil {
+				u.WithPrev = ch.Bool("errHeaderHasPrevLER")
+			}
+			m.mu.Unlock()
+			if m.errorOut() {
+				k++
+			}
+			n.step(false)
+			n.step(true)
+		}
+		return fmt.Sprintf("reject*%d", k)
 	case 12: // L2 block whose claims may name L1 info leaves that are not finalized yet
 		cls := pickClaims(ch, w, 1+ch.Int(0, 1, "nClaims"), true)
 		if err := w.addL2Block(ch, ch.Int(0, 1, "nBridges"), cls); err != nil {
